@@ -1,7 +1,8 @@
 \* quick tier, "as designed": RotateFile flushes headBuf, a record cut short by the end of the
 \* group ends the search of that file. The harness derives the configuration it runs from this
-\* file: it sets the two switches to what it probed on the code and drops MarkerComplete when a
-\* switch is FALSE (the model then violates it: see WALCoded.cfg / the "lead" runs).
+\* file: it sets the two switches and EncodeCuts to what it probed on the code and drops
+\* MarkerComplete when a switch is FALSE or EncodeCuts is not empty (the model then violates it: see
+\* WALCoded.cfg, WALTwoWrites.cfg / the "lead" runs).
 SPECIFICATION Spec
 CONSTANTS
   NRecs = 3
@@ -10,6 +11,7 @@ CONSTANTS
   MaxRestarts = 1
   FlushOnRotate = TRUE
   TornTailIsEOF = TRUE
+  EncodeCuts = {}
 INVARIANTS TypeOK PrefixThenEnd MarkerSound MarkerComplete Export
 ACTION_CONSTRAINT Edge
 VIEW View
